@@ -34,7 +34,7 @@ R = Run('MOF text families through the real PLY driver: string/char16 escapes (e
         'and 22 search-path dependency set-ups incl. cyclic/wrong files; 15 error kinds x 10 prefixes x 3 suffixes '
         'x string/file/include with the offending token at a known line/column; 66 hand-picked semantic errors; '
         'token drop/dup/swap/replace (30 substitutes; quick: 3) and prefix truncation at every offset (quick: every '
-        '2nd) of a 7-snippet corpus, thorough also every single-character delete/insert; seeded random token '
+        '2nd) of an 8-snippet corpus (incl. every alternative of the class/property/reference/method/parameter declaration productions), thorough also every single-character delete/insert; seeded random token '
         'soup/skeletons/characters/splices (quick 1500, thorough 120000); a scripted repository rejecting 8 '
         'operations x call 1/2/all x 26 status codes x fresh/recompile/forced; the mock WBEM server connected in 3 '
         'ways; 19x19 pairs of failures followed by a valid file; after failures the same MOFCompiler must compile a '
@@ -1472,6 +1472,27 @@ CORPUS = [
     ('embedded', 'class M_E { [Key] uint8 k; [EmbeddedInstance("M_E")] string e; [EmbeddedInstance("M_E")] string f[]; };\n'
                  'instance of M_E { k = 1; e = "instance of M_E { k = 2; };"; f = {"instance of M_E { k = 3; };"}; };\n'),
     ('alias', 'class M_C as $c1 { uint8 a; };\nclass M_D as $c2 : M_C { uint8 b = 0; M_C REF r; };\n'),
+    # every alternative of the declaration productions at least once: the 8 class forms (qualifier list x alias x
+    # superclass), the 8 property forms, the 4 reference forms, the 4 method forms and the 8 parameter forms
+    ('grammar-forms',
+     'Qualifier Q : string = null, Scope(any);\n'
+     'class G_A { [Key] string id; };\n'
+     'class G_B as $gb { uint8 a; };\n'
+     'class G_C : G_A { uint8 c; };\n'
+     'class G_D as $gd : G_A { uint8 d; };\n'
+     '[Q("x")] class G_E { uint8 e; };\n'
+     '[Q("x")] class G_F as $gf { uint8 f; };\n'
+     '[Q("x")] class G_G : G_A { uint8 g; };\n'
+     '[Q("x")] class G_H as $gh : G_A { uint8 h; };\n'
+     'class G_P {\n'
+     '  uint8 p1; uint8 p2 = 1; uint8 p3[]; uint8 p4[2] = {1, 2};\n'
+     '  [Q("x")] uint8 p5; [Q("x")] uint8 p6 = 1; [Q("x")] uint8 p7[3]; [Q("x")] uint8 p8[2] = {1, 2};\n'
+     '  uint8 m1(); uint8 m2(uint8 a, uint8 b[], uint8 c[2], G_A REF d, G_A REF e[], [Q("x")] uint8 f, '
+     '[Q("x")] uint8 g[], [Q("x")] G_A REF h, [Q("x")] G_A REF i[2]);\n'
+     '  [Q("x")] uint8 m3(); [Q("x")] uint8 m4(uint8 a);\n'
+     '};\n'
+     '[Association] class G_R { [Key] string id; G_A REF r1; G_A REF r2 = null; [Q("x")] G_A REF r3; '
+     '[Q("x")] G_A REF r4 = null; };\n'),
 ]
 SUBS = [';', '{', '}', '(', ')', ',', '=', ':', '$', '#', '[', ']', '5', '"s"', 'null', 'true', 'X', 'class', 'instance',
         'of', 'as', 'ref', 'qualifier', 'uint8', '1.5', "'c'", '-1', '0x', '@', 'Key']
